@@ -1531,7 +1531,7 @@ func c17ConnOwned(r *Report, rule string) {
 			return v == 1
 		}
 		memo[h] = 0
-		has := false
+		has := h.Parent() != nil // a closure has the connection in reach
 		for _, pa := range h.Params {
 			if isConn(pa) {
 				has = true
@@ -1582,7 +1582,7 @@ func c17ConnOwned(r *Report, rule string) {
 					return ok && c2.Call.IsInvoke() && c2.Call.Method.Name() == "Close" && isConn(c2.Call.Value)
 				}) != nil
 			}
-			passes := false
+			passes := h.Parent() != nil && h.Parent() == in.Parent()
 			for _, a := range cc.Args {
 				if isConn(a) {
 					passes = true
